@@ -213,6 +213,7 @@ theorem applyEffect_total (s s' : State) (e : Effect) (a : String) (h : applyEff
   | addPair x => simp only [applyEffect] at h; injection h with h; subst h; simp [total, delta]
   | delPair x => simp only [applyEffect] at h; injection h with h; subst h; simp [total, delta]
   | setMarkets x => simp only [applyEffect] at h; injection h with h; subst h; simp [total, delta]
+  | fail => simp [applyEffect] at h
 
 theorem applyEffects_total (fx : List Effect) (s s' : State) (a : String)
     (h : applyEffects s fx = some s') : (total s' a : Int) = total s a + deltas a fx := by
